@@ -226,6 +226,29 @@ def opAssign (j : Json) : Json :=
   | .ok w v => Json.mkObj [("model", Json.mkObj [("write", match w with | some x => Json.mkObj [("v", jsonOfVal x)] | none => Json.null),
                                                  ("vote", toJson v)]), ("spec", specJ)]
 
+/-! op `policy`: policy words, validation-mode string (or null), error ids → effects -/
+def jOptBool : Option Bool → Json
+  | some b => toJson b
+  | none => Json.null
+
+def opPolicy (j : Json) : Json :=
+  let ws := (getArr j "policy").toList.map (fun x => match x with | .str s => s | _ => "")
+  let p : Err.Policy := { raise := ws.contains "raise", collect := ws.contains "collect", stop := ws.contains "stop",
+                          fail := ws.contains "fail", print := ws.contains "print", quiet := ws.contains "quiet" }
+  let vm : Option String := match j.getObjVal? "vmode" with
+    | .ok (.str s) => some s
+    | _ => none
+  let o := Err.readOverride vm
+  let es := (getArr j "errors").toList.map (fun x => (x.getNat?).toOption.getD 0)
+  let r := Err.handleAll p o {} es
+  let sp := Spec.Err.outcome p o es
+  Json.mkObj [("override", Json.mkObj [("raise", jOptBool o.raise), ("print", jOptBool o.print), ("stop", jOptBool o.stop),
+                                       ("fail", jOptBool o.fail), ("match", jOptBool o.matchv)]),
+    ("raised", toJson r.2), ("stopped", toJson r.1.stopped), ("valid", toJson r.1.valid),
+    ("collected", toJson r.1.collected), ("printed", toJson r.1.printed),
+    ("spec", Json.mkObj [("raised", toJson sp.raised), ("stopped", toJson sp.stopped), ("valid", toJson sp.valid),
+                         ("collected", toJson sp.collected), ("printed", toJson sp.printed)])]
+
 def handle (line : String) : Json :=
   match Json.parse line with
   | .error e => Json.mkObj [("error", toJson s!"bad-json: {e}")]
@@ -236,6 +259,7 @@ def handle (line : String) : Json :=
     else if op == "den" then opDen j
     else if op == "meta" then opMeta j
     else if op == "assign" then opAssign j
+    else if op == "policy" then opPolicy j
     else Json.mkObj [("error", toJson s!"bad-op: {op}")]
 
 partial def loop (h : IO.FS.Stream) (out : IO.FS.Stream) : IO Unit := do
